@@ -712,6 +712,7 @@ def c14_subsets(rep, tier, seed, rows):
 
 
 def c14_extra(rep, tier, seed, rows):
+    flags_component(rep, tier, seed)
     c14_flag_errors(rep, tier, seed, rows)
     c14_subsets(rep, tier, seed, rows)
 
@@ -886,6 +887,7 @@ def c16_run(rep, tier, seed, tr):
                 rep.violation({"property": rep.prop, "component": "lookup", "what": "grammar chosen by the real lookup differs from the proved lookup over the regenerated table",
                                "case": case, "impl": impl, "model_parser": model, "model_class": want})
     c16_multi(rep, tier, seed)
+    flags_component(rep, tier, seed)
     # -E validation and end-to-end use of a remap through the binary
     scen = [
         (["-E", "cxx=cpp", "list"], {"x.cxx": "// <block name=\"a\">\n// </block>\n"}, 0, "x.cxx"),
@@ -1069,6 +1071,26 @@ def c15_fill_scope(prop, raws):
             r["allow"].append(p)
         if i:
             r["ignore"].append(p)
+
+
+def flags_component(rep, tier, seed):
+    """`-E` / `-e` / `-d` values through the real clap parser + `Args::validate` (in-process) vs `Bw.Flags.startup`"""
+    rep.rules.append("0-3 `-E KEY=VALUE` values (registered / unregistered / upper-case / padded / empty targets, missing or doubled `=`, repeated keys) x `--enable` / `--disable` / both / neither with 1-3 names (registered, upper case, padded, fragments, empty, comma lists): accepted or rejected, and the accepted sets and `-E` map, by `Args::try_parse_from` + `Args::validate` in-process vs the Lean model of flags.rs; non-trivial = the command line is accepted")
+    n = n_for(tier, 4000, 80000)
+    rows = K.run_component(rep.prop, "flags", [], seed, n, tier)
+    bad = 0
+    for case, impl, model in rows:
+        rep.evaluations += 1
+        rep.traces += 1
+        rep.count("flags:" + ("accepted" if "ok" in impl else "panic" if "panic" in impl else "rejected"))
+        if "ok" in impl:
+            rep.nontrivial.add(K.canon({k: case[k] for k in ("E", "e", "d")}))
+        if impl != model:
+            bad += 1
+            if bad <= 3:
+                rep.violation({"property": rep.prop, "component": "flags (in-process)",
+                               "what": "the real option handling (clap value parsers + Args::validate) and the proved model of flags.rs disagree",
+                               "case": case, "impl": impl, "model": model})
 
 
 def c15_globs(rep, tier, seed):
@@ -1759,6 +1781,8 @@ def replay(prop, path):
     model = json.loads(open(os.path.join(d, "model.jsonl")).readline())
     if case.get("op") == "glob":
         diffs = [] if impl == model or "outside" in model else [("glob", impl, model)]
+    elif case.get("op") == "flags":
+        diffs = [] if impl == model else [("flags", impl, model)]
     elif case.get("op") == "lookup":
         by_parser = {}
         for ext, parser in K.translate()["ext"]:
